@@ -17,9 +17,11 @@ COMMON_ASSUMPTIONS = [
 
 ENUM_RULE = (
     "small scope: every pattern LIST (order and duplicates matter, empty pattern included) of <=3 patterns of "
-    "length <=2 (quick) / <=3 (thorough) over {a,b} x every haystack over {a,b} of length <=5 (quick) / <=6 (thorough) "
+    "length <=2 (quick) / <=3 (thorough) over {a,b} x every haystack over {a,b} of length <=5 (quick) / <=7 (thorough) "
     "x all spans (a spread of spans for the longest haystacks) x a fixed set of 7-8 builder configurations covering "
-    "all three automaton types through the top-level and the low-level API; plus seeded structured-random pattern "
+    "all three automaton types through the top-level and the low-level API; a second exhaustive scope over {a,A,b} "
+    "(patterns of length <=2, lists of <=2 (quick) / <=3 (thorough) patterns, haystacks of length <=4 / <=5), each "
+    "configuration built case-sensitive and case-insensitive; plus seeded structured-random pattern "
     "lists (alphabets from letters in both cases, @ [ ` { , NUL, 0x80 0xC1 0xE1 0xFF; prefix/suffix/infix/duplicate/"
     "case-variant closure; empty pattern; occasionally 30-130 patterns or a 200-600 byte pattern) x random "
     "configurations (kind, start kind, dense depth, byte classes, prefilter, case-insensitivity) x pattern-derived "
